@@ -90,10 +90,11 @@ def fieldsInSetCanMerge (s : Schema) (d : Document) (spreadFuel : Nat) : Nat →
             fieldsInSetCanMerge s d spreadFuel n (subFields s d spreadFuel a ++ subFields s d spreadFuel b)
          else true)) fields
 
-/-- enough fuel for acyclic documents: spreads nest at most `#fragments` deep, fields at most
-    `depth x (#fragments + 1)` -/
+/-- enough fuel for documents without fragment cycles (proved: `Lemmas/SpreadFuel.lean`,
+    `Lemmas/NestFuel.lean`, `C05.violatedEx_iff`): spreads nest at most `#fragments` deep, fields at
+    most `depth x (#fragments + 2)` -/
 def spreadFuelOf (d : Document) : Nat := d.fragments.length + 1
-def nestFuelOf (d : Document) : Nat := (docDepth d + 1) * (d.fragments.length + 1) + 1
+def nestFuelOf (d : Document) : Nat := (docDepth d + 1) * (d.fragments.length + 2) + 1
 
 /-- 5.3.2: every selection set of the document (with the type it is selected on) can merge -/
 def MergeViolated (s : Schema) (d : Document) : Prop :=
